@@ -23,7 +23,13 @@ def hooked(self):
 
 
 _CounterContext.__enter__ = hooked
-READS = {"getitem": lambda: x["a"], "get": lambda: x.get("a"), "len": lambda: len(x), "iter": lambda: list(x),
+if op.startswith("list-"):
+    # the same defect through a list: reads of a nested list (membership, inherited from collections.abc.Sequence)
+    x["l"] = [1, 2]
+    lst = x["l"]
+    at.clear()
+READS = {"list-contains": lambda: 1 in lst, "list-getitem": lambda: lst[0],
+         "getitem": lambda: x["a"], "get": lambda: x.get("a"), "len": lambda: len(x), "iter": lambda: list(x),
          "call": lambda: x(), "eq": lambda: x == {}, "keys": lambda: list(x.keys()), "values": lambda: list(x.values()),
          "items": lambda: list(x.items()), "contains": lambda: "a" in x, "repr": lambda: repr(x), "str": lambda: str(x)}
 res = {}
